@@ -265,3 +265,23 @@ PROPS["C16"] = {
     "outside": ["the handshake (MakeSecretConnection: X25519, merlin transcript, HKDF, challenge signature) and p2p/transport.go upgrade: the primitives are not encoded, so the authentication half of C16 is outside this check", "frames longer than 3 per write, more than 3 writes"],
     "timeout_quick": 300, "timeout_thorough": 900,
 }
+
+PROPS["C17"] = {
+    "files": ["p2p/conn/connection.go", "consensus/state.go", "consensus/msgs.go"],
+    "groups": [
+        {"dir": "p2p/conn",
+         "quick": ["VP_C17_Deliver_2x9", "VP_C17_HostilePackets_2"],
+         "thorough": ["VP_C17_Deliver_3x9", "VP_C17_Deliver_4x5", "VP_C17_HostilePackets_3"]},
+        {"dir": "consensus",
+         "quick": ["VP_C17_CoreSurvivesVote"],
+         "thorough": []},
+    ],
+    "bounds": {
+        "delivery (H1)": "real MConnection pair over an in-memory link, packet payload size 4: the real send side (Channel queues, sendPacketMsg channel selection by priority/recently-sent ratio, nextPacketMsg, protoio framing, flush) called step by step, the real receive routine running as a goroutine under the engine scheduler; 2 channels of different priority; 2 (thorough 3-4) messages of arbitrary bytes, each of any length 0..9 (thorough 4 messages: 0..5) on either channel, with 0-2 packets sent between two sends",
+        "hostile packets (H1b)": "2 (thorough 3) packets written to the real receive routine: PacketMsg with arbitrary int32 channel id, arbitrary EOF flag, arbitrary data of length {0,4,7} against a message capacity of 6; ping; pong; empty Packet",
+        "consensus core (H3)": "one signed vote message of arbitrary height 0..3, round 0..2, type, validator through ValidateBasic and the real handleMsg at the initial height",
+    },
+    "stubs": ["in-memory net.Conn", "nop logger", "timers on the engine's virtual clock (fire only when every goroutine is blocked)"],
+    "outside": ["reactor Receive methods for hostile well-formed messages (H2) other than the consensus vote path: not built", "switch/peer lifecycle", "flow-rate limiting delays", "messages longer than 9 bytes / payload sizes other than 4"],
+    "timeout_quick": 400, "timeout_thorough": 1800,
+}
